@@ -146,7 +146,10 @@ for sid, (prop, change, needs) in sorted(NEEDS.items()):
     os.makedirs(dst + '/demo', exist_ok=True)
     shutil.copy(f'{out}/patch.diff', dst + '/patch.diff')
     for d in glob.glob(f'{out}/demo/*'):
-        shutil.copy(d, dst + '/demo/')
+        if os.path.isdir(d):
+            shutil.copytree(d, os.path.join(dst, 'demo', os.path.basename(d)), dirs_exist_ok=True)
+        else:
+            shutil.copy(d, dst + '/demo/')
     if os.path.exists(f'{out}/README.md'):
         shutil.copy(f'{out}/README.md', dst + '/AGENT_README.md')
     extra = json.load(open(dst + '/confirm_extra.json')) if os.path.exists(dst + '/confirm_extra.json') else {}
